@@ -167,7 +167,7 @@ func (c govcFaultyClose) Close() error {
 // {accepts all, hard error at once, one byte then hard error, one byte then a deadline expiry without end}
 // x Close of the connection {nil, error} x quit {nil, already closed}. Oracle (package documentation):
 // nil only with the two bytes of DISCONNECT on the wire; an error is ErrClosed, ErrDown, ErrCanceled or
-// ErrSubmit, never IsDeny; the first three only with nothing written.
+// ErrSubmit, never IsDeny; the first three only with nothing written; the client's context is cancelled.
 func TestGovcReplay(t *testing.T) {
 	govcLoad(t)
 	tried := 0
@@ -214,6 +214,10 @@ func TestGovcReplay(t *testing.T) {
 					}
 					got := c.Disconnect(quit)
 					desc := fmt.Sprintf("Disconnect on a client %s, write script %s, Close of the connection fails: %v, quit closed: %v", state, script, closeFails, quitClosed)
+					if c.ctx.Err() == nil {
+						t.Logf("REPLAY: reproduced: %s: the context that dial and handshake run under is not cancelled", desc)
+						return
+					}
 					switch {
 					case got == nil:
 						if state != "online" || !bytes.Equal(conn.wire, []byte{typeDISCONNECT << 4, 0}) {
